@@ -69,6 +69,7 @@ class World:
         self.clients = {}
         self.alive = set()
         self.names = RN.Names()
+        self.by_rules = RN.Names()  # the same requests applied to the ownership rules alone, never re-seeded from the bus
         self.rules = {}            # cid -> list of rule dicts (AddMatch succeeded)
         self.issued = []
         self.announced = {}       # name -> client the bus told it owns the name
@@ -227,6 +228,7 @@ def run_history(ctx, seed, idx):
             if len(alive) > 1 and r.random() < 0.5:
                 hist.append(['disc', a])
                 w_.names.disconnect(a)
+                w_.by_rules.disconnect(a)
                 ca.disconnect()
                 w_.alive.discard(a)
                 w_.drain()
@@ -236,6 +238,7 @@ def run_history(ctx, seed, idx):
             flags = r.choice([0, 1, 2, 3, 4, 6, 7])
             hist.append(['req', a, name, flags])
             code, ev, replaced = w_.names.request(a, name, flags)
+            w_.by_rules.request(a, name, flags)
             s = ca.call('RequestName', 'su', [name, flags])
             rep = ca.reply_to(s)
             if rep is None or rep.body != [code]:
@@ -249,6 +252,7 @@ def run_history(ctx, seed, idx):
             name = r.choice(names)
             hist.append(['rel', a, name])
             w_.names.release(a, name)
+            w_.by_rules.release(a, name)
             ca.call('ReleaseName', 's', [name])
             _resync(w_, name)
             w_.drain()
@@ -392,6 +396,19 @@ def run_history(ctx, seed, idx):
         w['sent'] = hist[-1]
         w['expected_recipients'] = sorted(want)
         deliveries = {cid: [m for m in ms if _token_of(m) == tok] for cid, ms in got.items()}
+        if op == 'unicast-name':
+            # "the connection owning the destination name at that moment" is the one the ownership rules (C13's subject)
+            # make the owner after this history of requests, releases and disconnects - a bus whose own statements agree
+            # with each other but not with that still hands the message to the wrong connection
+            rightful = w_.by_rules.owner(dest)
+            ctx.count('named_deliveries_checked_against_the_rules')
+            reached = sorted(c for c, v in deliveries.items() if v)
+            if reached != ([rightful] if rightful is not None and rightful in w_.alive else []):
+                w['owner_by_the_rules'] = rightful
+                w['delivered_to'] = reached
+                ctx.report('delivered-to-non-owner', '%s to %r reached client(s) %r; after this history of requests the name '
+                           'belongs to client %r' % (RM.TYPE_NAMES[mtype], dest, reached, rightful), w, case)
+                return
         stray = {cid: [_token_of(m) for m in ms if _token_of(m) != tok] for cid, ms in got.items()}
         if any(stray.values()):
             ctx.report('stale-delivery', 'messages of earlier steps delivered late: %r' % stray, w, case)
